@@ -148,6 +148,9 @@ void ezc3d::c3d::readFile(unsigned int nByteToRead, char * c, int nByteFromPrevi
     if (pos != 1)
         this->seekg (nByteFromPrevious, pos); // Move to number analogs
     this->read (c, nByteToRead);
+    // What could not be read (end of the file) is null, not whatever the buffer contained before
+    for (std::streamsize i = (this->gcount() > 0 ? this->gcount() : 0); i < static_cast<std::streamsize>(nByteToRead); ++i)
+        c[i] = '\0';
     c[nByteToRead] = '\0'; // Make sure last char is NULL
 }
 
